@@ -32,19 +32,35 @@ type predPkg struct {
 	San   []string `json:"san"`
 }
 
-type predCase struct {
-	Case    int       `json:"case"`
-	MoqPath string    `json:"moqPath"`
-	Pkgs    []predPkg `json:"pkgs"`
+type predVar struct {
+	NameCs []string  `json:"nameCs"`
+	T      T         `json:"t"`
+	Suffix string    `json:"suffix"`
+	Pkgs   []predPkg `json:"pkgs"`
 }
 
-// Prediction is what spec/Registry.tla says about one case.
+type predCase struct {
+	Case    int         `json:"case"`
+	MoqPath string      `json:"moqPath"`
+	Scopes  [][]predVar `json:"scopes"`
+	Tail    []predPkg   `json:"tail"`
+	scopeOf []string    // "<iface>.<method>" per scope ("<iface>.[tparams]")
+	nParams []int       // number of parameters (record fields) per scope, -1 for type-parameter scopes
+}
+
+// Prediction is what the Registry and Scope models say about one case.
 type Prediction struct {
 	Case    int          `json:"case"`
 	Diverge bool         `json:"diverge"`
 	Dup     bool         `json:"dup"`
+	Crash   bool         `json:"crash"`
+	NameDup bool         `json:"nameDup"`
 	NFinals int          `json:"nfinals"`
 	Finals  [][][]string `json:"finals"` // set of registries, each a set of [path, qualifier]
+	Names   [][][]string `json:"names"`  // per scope: set of possible final name lists
+	ScopeOf []string     `json:"-"`
+	NParams []int        `json:"-"`
+	FieldDup bool        `json:"-"`
 }
 
 // walk lists the packages of a type in the order populateImports meets them.
@@ -72,58 +88,71 @@ func walk(t T, out *[]int) {
 	}
 }
 
-// importSeq: the packages handed to AddImport, in order, for a case.
-func importSeq(c *Case) []predPkg {
+// buildPred lays out a case for spec/GenPredict.tla: scopes in the order
+// Mocker.Mock creates them, each variable with the packages its type mentions
+// in populateImports order.
+func buildPred(c *Case) *predCase {
 	aliases := map[string]string{}
 	for _, a := range c.srcAliases() {
 		aliases[a.Path] = a.Alias
 	}
-	var seq []predPkg
-	add := func(path, name string) {
-		seq = append(seq, predPkg{Path: path, Name: name, Alias: aliases[path], San: sanitise(path)})
+	pk := func(i int) predPkg {
+		if i == -1 {
+			return predPkg{Path: c.Src.Path, Name: c.Src.Name, Alias: aliases[c.Src.Path], San: sanitise(c.Src.Path)}
+		}
+		p := c.Src.Pkgs[i]
+		return predPkg{Path: p.Path, Name: p.Name, Alias: aliases[p.Path], San: sanitise(p.Path)}
+	}
+	pc := &predCase{Case: c.ID, MoqPath: moqPathOf(c), Scopes: [][]predVar{}, Tail: []predPkg{}}
+	mkVar := func(name string, t T, suffix string) predVar {
+		var idx []int
+		walk(t, &idx)
+		v := predVar{NameCs: cs(name), T: t, Suffix: suffix, Pkgs: []predPkg{}}
+		for _, i := range idx {
+			v.Pkgs = append(v.Pkgs, pk(i))
+		}
+		return v
 	}
 	anyMethod := false
-	for _, arg := range c.Cfg.Args {
-		in, _ := mockNameOf(arg)
-		for _, it := range c.Src.Ifaces {
-			if it.Name != in {
-				continue
-			}
+	for _, it := range requested(c) {
+		if len(it.TParams) > 0 {
+			var sc []predVar
 			for _, tp := range it.TParams {
-				if strings.HasPrefix(tp.Constraint, "pkgnum:") {
+				ct := AliasT("constraint")
+				switch {
+				case strings.HasPrefix(tp.Constraint, "pkgnum:"):
 					p, _ := strconv.Atoi(strings.TrimPrefix(tp.Constraint, "pkgnum:"))
-					add(c.Src.Pkgs[p].Path, c.Src.Pkgs[p].Name)
+					ct = Named(p, "Num")
+				case tp.Constraint == "method":
+					ct = Named(-1, "LocalC")
 				}
-				if tp.Constraint == "method" {
-					add(c.Src.Path, c.Src.Name)
-				}
+				sc = append(sc, mkVar(tp.Name, ct, ""))
 			}
-			for _, m := range it.Methods {
-				anyMethod = true
-				var idx []int
-				for _, p := range m.Params {
-					walk(p.T, &idx)
-				}
-				for _, r := range m.Results {
-					walk(r.T, &idx)
-				}
-				for _, p := range idx {
-					if p == -1 {
-						add(c.Src.Path, c.Src.Name)
-					} else {
-						add(c.Src.Pkgs[p].Path, c.Src.Pkgs[p].Name)
-					}
-				}
+			pc.Scopes = append(pc.Scopes, sc)
+			pc.scopeOf = append(pc.scopeOf, it.Name+".[tparams]")
+			pc.nParams = append(pc.nParams, -1)
+		}
+		for _, m := range it.Methods {
+			anyMethod = true
+			sc := []predVar{}
+			for _, p := range m.Params {
+				sc = append(sc, mkVar(p.Name, p.T, ""))
 			}
+			for _, r := range m.Results {
+				sc = append(sc, mkVar(r.Name, r.T, "Out"))
+			}
+			pc.Scopes = append(pc.Scopes, sc)
+			pc.scopeOf = append(pc.scopeOf, it.Name+"."+m.Name)
+			pc.nParams = append(pc.nParams, len(m.Params))
 		}
 	}
 	if anyMethod {
-		add("sync", "sync")
+		pc.Tail = append(pc.Tail, predPkg{Path: "sync", Name: "sync", San: sanitise("sync")})
 	}
-	if c.Cfg.Dest != "implicit" && !c.Cfg.SkipEnsure && c.Cfg.Dest != "explicitSame" {
-		add(c.Src.Path, c.Src.Name)
+	if c.Cfg.Dest != "implicit" && c.Cfg.Dest != "explicitSame" && !c.Cfg.SkipEnsure {
+		pc.Tail = append(pc.Tail, pk(-1))
 	}
-	return seq
+	return pc
 }
 
 func moqPathOf(c *Case) string {
@@ -133,28 +162,29 @@ func moqPathOf(c *Case) string {
 	return "" // findPkgPath as written: any explicit -pkg that is not a directory relative to the cwd
 }
 
-// Predict runs spec/RegistryPredict.tla over the cases.
+// Predict runs spec/GenPredict.tla (Registry + Scope models) over the cases.
 func Predict(sc *core.Scratch, ev *core.Evidence, tag string, cases []*Case) (map[int]*Prediction, error) {
 	var buf bytes.Buffer
 	enc := json.NewEncoder(&buf)
+	scopeOf := map[int][]string{}
+	nParams := map[int][]int{}
 	for _, c := range cases {
-		pc := predCase{Case: c.ID, MoqPath: moqPathOf(c), Pkgs: importSeq(c)}
-		if pc.Pkgs == nil {
-			pc.Pkgs = []predPkg{}
-		}
-		enc.Encode(&pc)
+		pc := buildPred(c)
+		scopeOf[c.ID] = pc.scopeOf
+		nParams[c.ID] = pc.nParams
+		enc.Encode(pc)
 	}
 	cfg := "SPECIFICATION Spec\nCONSTANTS\n  CaseFile = \"cases.ndjson\"\nINVARIANTS Done\n"
-	res, err := core.RunTLC(sc, &core.TLCOpts{Module: "RegistryPredict", CfgText: cfg, Workers: 1, Timeout: 30 * time.Minute,
-		Files: map[string][]byte{"cases.ndjson": buf.Bytes()}})
+	res, err := core.RunTLC(sc, &core.TLCOpts{Module: "GenPredict", CfgText: cfg, Workers: 1, Timeout: 30 * time.Minute,
+		Files: map[string][]byte{"cases.ndjson": buf.Bytes()}, HeapGB: 8})
 	if err != nil {
 		return nil, err
 	}
 	tl := core.PrintedLines(res.Output, "PREDICT-LINES ")
 	if res.Violated || len(tl) != 1 || tl[0] != strconv.Itoa(len(cases)) {
-		return nil, core.Infra("RegistryPredict did not consume %d cases (%v, %s):\n%s", len(cases), tl, res.ViolatedBy, core.Tail(res.Output, 30))
+		return nil, core.Infra("GenPredict did not consume %d cases (%v, %s):\n%s", len(cases), tl, res.ViolatedBy, core.Tail(res.Output, 30))
 	}
-	ev.AddTLC("RegistryPredict "+tag+" cases="+strconv.Itoa(len(cases)), res)
+	ev.AddTLC("GenPredict "+tag+" cases="+strconv.Itoa(len(cases)), res)
 	out := map[int]*Prediction{}
 	for _, l := range core.PrintedLines(res.Output, "PREDICT ") {
 		s, err := strconv.Unquote(`"` + l + `"`)
@@ -163,6 +193,26 @@ func Predict(sc *core.Scratch, ev *core.Evidence, tag string, cases []*Case) (ma
 		}
 		var p Prediction
 		if json.Unmarshal([]byte(s), &p) == nil {
+			p.ScopeOf = scopeOf[p.Case]
+			p.NParams = nParams[p.Case]
+			for si, alts := range p.Names {
+				if si >= len(p.NParams) || p.NParams[si] < 0 {
+					continue
+				}
+				for _, names := range alts {
+					seen := map[string]bool{}
+					for k, n := range names {
+						if k >= p.NParams[si] {
+							break
+						}
+						e := exportedMirror(n)
+						if seen[e] {
+							p.FieldDup = true
+						}
+						seen[e] = true
+					}
+				}
+			}
 			out[p.Case] = &p
 		}
 	}
